@@ -359,6 +359,14 @@ def _experiment(check: Check):
   fi = repo.func('fedjax.training.federated_experiment', 'run_federated_experiment')
   ff = FuncFlow.of(repo, fi)
   params = fi.positional_params
+  # -- a resumed run may have no rounds left: a count of rounds used as a denominator after the loop needs its zero guard
+  from fjsa.rules.div import DivAnalysis
+  from fjsa.rules import wmean as _wm
+  for sdiv in DivAnalysis(repo).sites(fi):
+    if sdiv.cls == 'DATA' and _wm._loop_of(ff, sdiv.node) is None:
+      check.ob('R-DIV.resume', fi, txt(sdiv.node)[:80], sdiv.guard is not None,
+               f'denominator {txt(sdiv.denom)} ({sdiv.why}) is zero when the run resumes from its last checkpoint; guard: {sdiv.guard}',
+               node=sdiv.node, exact=True)
   # -- R-DEFASSIGN
   reads = defassign.loop_unbound_reads(ff)
   seen = set()
